@@ -285,15 +285,27 @@ def run(ctx: Ctx) -> None:
     ctx.check("props" not in rec, "R3", "no pruning without a version", repo.loc("validator", repo.func("validator.Validator.get_versioned_schema")), "", "the version-less schema is pruned")
     # validate(): versioned validator iff version given
     vfn = repo.func("validator.Validator.validate")
-    sel = [c for c in facts.calls["validator.Validator.validate"] if c.target == "validator.Validator.get_versioned_schema"]
-    good = False
-    for c in sel:
-        gs = guards_at(vfn, c.node)
-        b = bind_args(c.node, repo.func("validator.Validator.get_versioned_schema"), skip_self=True)
-        good = any(g.positive and norm(g.test) in ("version", "version is not None") for g in gs) and isinstance(b.get("version"), ast.Name) and b["version"].id == "version"
-    other = [c for c in facts.calls["validator.Validator.validate"] if c.target == "validator.Validator.get_schema_validator"]
-    good2 = all(any((not g.positive) and norm(g.test) in ("version", "version is not None") for g in guards_at(vfn, c.node)) for c in other) and bool(other)
-    ctx.check(good and good2, "R3", "validate selects the versioned schema iff a version is given", repo.loc("validator", vfn), "", "validate() does not choose between the versioned and the plain validator by the version argument")
+    # evaluated with recorders: which schema source is asked, and with what, for version None / 7.6
+    for ver in (None, 7.6):
+        asked: dict = {"versioned": [], "plain": []}
+
+        def gvs(I_, self_obj, args, kwargs):
+            asked["versioned"].append(I_.bind("validator.Validator.get_versioned_schema", repo.func("validator.Validator.get_versioned_schema"), self_obj, list(args), dict(kwargs)))
+            return HDict()
+
+        def gsv(I_, self_obj, args, kwargs):
+            asked["plain"].append(list(args))
+            return SObj("Validator", {})
+
+        Iv = e.interp(stubs={"validator.Validator.get_versioned_schema": gvs, "validator.Validator.get_schema_validator": gsv, "validator.Validator._get_errors": lambda *a: [], "ext:jsonschema.Draft4Validator": lambda fr, so, a, k: SObj("Validator", {})}, allow_fork=False)
+        outs = Iv.explore("validator.Validator.validate", lambda ver=ver: (pai.Inst("validator.Validator"), [HDict({"__type__": "layer"})], {"version": ver} if ver is not None else {}))
+        if len(outs) != 1 or outs[0].kind != "return":
+            raise AnalysisError(f"validate(version={ver}) not evaluable: {[(o.kind, o.exc) for o in outs]}")
+        if ver is None:
+            good = not asked["versioned"] and len(asked["plain"]) == 1
+        else:
+            good = not asked["plain"] and len(asked["versioned"]) == 1 and asked["versioned"][0].get("version") == ver and asked["versioned"][0].get("schema_name") == "layer"
+        ctx.check(good, "R3", f"validate(version={ver}) selects the {'versioned' if ver else 'plain'} schema", repo.loc("validator", vfn), "", f"validate(version={ver}) asks for versioned schemas {asked['versioned']} and plain validators {asked['plain']}")
     uv = repo.func("utils.validate")
     cs = [c for c in facts.calls["utils.validate"] if c.target == "validator.Validator.validate"]
     okv = False
